@@ -9,7 +9,7 @@ import time
 
 VERIF = os.path.dirname(os.path.dirname(os.path.abspath(__file__)))
 SIMBIN_DIR = os.path.join(VERIF, "sim", "simbin")
-TARGET = os.path.join(VERIF, "target")
+TARGET = os.environ.get("VERIF_TARGET", "/verif/target")
 SIM = os.path.join(TARGET, "debug", "sim")
 JOBS = int(os.environ.get("VERIF_JOBS", "16"))
 
@@ -25,6 +25,8 @@ def log(msg):
 
 def build():
     """Rebuild the simulator from $REPO_DIR's current working tree (no-op when unchanged)."""
+    if os.environ.get("VERIF_NO_BUILD"):
+        return SIM
     env = dict(os.environ)
     env["CARGO_NET_OFFLINE"] = "true"
     t = time.time()
